@@ -224,6 +224,19 @@ def run_mc(module, consts, invariants=("Inv",), workers=8, timeout=1200, tag=Non
     return info
 
 
+def expect_violated(module, consts, invariant, workers=4, timeout=600):
+    """A witness run: the invariant must be VIOLATED (the situation it denies is reachable in the model).
+    Returns a dict for the evidence; raises ToolError if TLC finds no violation or fails otherwise."""
+    try:
+        run_mc(module, consts, invariants=(invariant,), workers=workers, timeout=timeout, tag=module + "-" + invariant)
+    except ToolError as ex:
+        if f"Invariant {invariant} is violated" in str(ex):
+            log(f"[mc] {module}: witness {invariant} violated, as required")
+            return dict(module=module, witness=invariant, outcome="violated, as required", consts={k: str(v) for k, v in consts.items()})
+        raise
+    raise ToolError(f"witness {invariant} of {module} is not violated: the model does not reach the situation it is meant to exhibit")
+
+
 def run_apalache(module, inv, timeout=600):
     """Supplementary unbounded lemma (Apalache). Never a verdict: returns a short status string for the evidence."""
     d = os.path.join(SPEC, "apalache")
@@ -283,6 +296,8 @@ def run_trace(trace_path, nshards=8, timeout=3000, module="TzRsTrace", min_event
     bad = []
     events = 0
     states = 0
+    algo_diff = 0
+    algo_samples = []
     for (proc, p, off, n, work) in procs:
         try:
             outp, _ = proc.communicate(timeout=max(10, timeout - (time.time() - t0)))
@@ -303,6 +318,11 @@ def run_trace(trace_path, nshards=8, timeout=3000, module="TzRsTrace", min_event
             raise ToolError(f"trace validation of {p} did not consume the trace ({done and done[0]} of {n}):\n" + "\n".join(errl) + "\n" + outp[-1500:])
         events += n
         badl, infol = done[1]
+        for (zi, t) in infol:
+            if t == "algo-differs":
+                algo_diff += 1
+                if len(algo_samples) < 5:
+                    algo_samples.append(open(p).read().splitlines()[zi - 1][:600])
         if badl:
             lines = open(p).read().splitlines()
             zinfo = {}
@@ -316,10 +336,11 @@ def run_trace(trace_path, nshards=8, timeout=3000, module="TzRsTrace", min_event
                 zone_at.append(cur)
             for (idx, tag) in badl:
                 zi = zone_at[idx - 1]
-                bad.append((off + idx - 1, tag, lines[idx - 1], lines[zi - 1] if zi and zi != idx else None, zinfo.get(zi, [])))
+                bad.append((off + idx - 1, tag, lines[idx - 1], lines[zi - 1] if zi and zi != idx else None, zinfo.get(zi, []),
+                            zinfo.get(idx, []) if zi != idx else []))
         os.remove(p)
     log(f"[trace] {os.path.basename(trace_path)}: {events} events on {len(shards)} JVMs, {len(bad)} bad, {time.time()-t0:.1f}s")
-    return dict(events=events, states=states, bad=bad, seconds=round(time.time() - t0, 1))
+    return dict(events=events, states=states, bad=bad, seconds=round(time.time() - t0, 1), algo_diff=algo_diff, algo_samples=algo_samples)
 
 
 # ---------------------------------------------------------------------------------------------
@@ -349,6 +370,8 @@ class Result:
         self.samples = []
         self.violations = []    # dicts
         self.known = {}         # key -> count
+        self.algo_diff = 0      # events whose result differs from the algorithm layer's walk (Algo.tla); informational
+        self.algo_samples = []
         self.notes = {}
         self.assumptions = []
         self.drivers = {}
@@ -391,6 +414,7 @@ class Result:
             model_checking_runs=self.mc, drivers=self.drivers,
             samples=self.samples[:5] if self.samples else [{"note": "no events recorded"}],
             known_findings_matched=self.known,
+            algorithm_layer_differences=self.algo_diff,
             checker_cmd="tlc (TLC2 1.8.0) on spec/*.tla; harness/target/chk/tzverif run",
         )
         cov.update(self.notes)
@@ -416,6 +440,8 @@ def match_known(known, pid, v):
         m = kf["matcher"]
         ztags = (v.get("extra") or {}).get("zone_tags", [])
         if "zone_tag" in m and m["zone_tag"] not in ztags:
+            continue
+        if "event_tag" in m and m["event_tag"] not in (v.get("extra") or {}).get("event_tags", []):
             continue
         if "tags" in m and v["tag"] not in m["tags"]:
             continue
@@ -454,11 +480,13 @@ def run_pipeline(res, binary, name, gen_lines=None, vec_path=None, nshards=8, va
         if vec_path is None:
             res.events += tr["events"]
         res.trace_states += tr["states"]
-        for (idx, tag, line, zline, ztags) in tr["bad"]:
+        res.algo_diff += tr["algo_diff"]
+        res.algo_samples += tr["algo_samples"][:max(0, 3 - len(res.algo_samples))]
+        for (idx, tag, line, zline, ztags, etags) in tr["bad"]:
             e = json.loads(line)
             if tag == "generator-error":
                 raise ToolError(f"generator produced an unusable event: {line[:400]}")
-            res.violation(tag, strip(e), dict(index=idx, zone_tags=ztags, context=strip(json.loads(zline)) if zline else None))
+            res.violation(tag, strip(e), dict(index=idx, zone_tags=ztags, event_tags=etags, context=strip(json.loads(zline)) if zline else None))
     if len(res.samples) < 6:
         # actual cases of this run: the first event and the first event that is not a zone-setting one
         with open(outp) as f:
